@@ -279,3 +279,72 @@ Proof.
   unfold rlin, rscal. rewrite vmap2_self. apply map_ext. intros; lra.
 Qed.
 End SetZero.
+
+(* ================================================================== *)
+(* Part 4: the primitive kernels are clean maps (non-vacuity of [pf_clean]) *)
+Section Kernels.
+Lemma sumf_cl (l : list R) : sumf (cl l) = Some (sumf l).
+Proof.
+  induction l as [|a l IH]; [reflexivity|].
+  cbn [cl map sumf] in *. unfold cl in IH. rewrite IH. reflexivity.
+Qed.
+Lemma dot_cl (r d : list R) : dot (cl r) (cl d) = Some (dot r d).
+Proof. unfold dot, vmul. rewrite (vmap2_cl _ Rmult) by reflexivity. apply sumf_cl. Qed.
+
+Lemma pabs_clean sp : pf_clean PAbs sp sp (map Rabs).
+Proof.
+  split; [reflexivity|]. intros d L. split; [|rewrite map_length; exact L].
+  cbn [pf_vec]. apply map_cl. reflexivity.
+Qed.
+Lemma psquare_clean sp : pf_clean PSquare sp sp (map (fun u => u * u)%R).
+Proof.
+  split; [reflexivity|]. intros d L. split; [|rewrite map_length; exact L].
+  cbn [pf_vec]. apply map_cl. reflexivity.
+Qed.
+Lemma pident_clean sp : pf_clean PIdent sp sp (fun d => d).
+Proof. split; [reflexivity|]. intros d L. split; [reflexivity | exact L]. Qed.
+Lemma pconst_clean dom ran c : length c = fst ran -> pf_clean (PConst (cl c)) dom ran (fun _ => c).
+Proof. intros Lc. split; [reflexivity|]. intros d L. split; [reflexivity | exact Lc]. Qed.
+Lemma pmat_clean dom ran (m : list (list R)) : length m = fst ran ->
+  pf_clean (PMat (map cl m)) dom ran (fun d => map (fun r => dot r d) m).
+Proof.
+  intros Lm. split; [reflexivity|]. intros d L. split; [|rewrite map_length; exact Lm].
+  cbn [pf_vec]. unfold mvec, cl. rewrite !map_map. apply map_ext. intros r. apply dot_cl.
+Qed.
+Lemma pinner_clean dom (w : list R) : pf_sc_clean (PInner (cl w)) dom (fun d => dot d w).
+Proof. intros d L. cbn [pf_scalar]. rewrite dot_cl. reflexivity. Qed.
+Lemma psumsq_clean dom : pf_sc_clean PSumSq dom (fun d => dot d d).
+Proof. intros d L. cbn [pf_scalar]. rewrite dot_cl. reflexivity. Qed.
+End Kernels.
+
+(* ================================================================== *)
+(* Part 5: proximal_l2 in the branch step >= 1 (body: out.set_zero()) *)
+Section ProxL2.
+Variable junk : nat -> nat -> VR.
+Definition prox_l2_bigstep (sp : space) : @op VR := Op cls_ProximalL2_bigstep sp (RSp sp) [] [] [] [].
+
+(* from THRESHOLD_SMALL entries on: zero, whatever out (and x) contained *)
+Lemma prox_bigstep_ip_large sp (s : storeR) x y dx dy :
+  wf_store s -> rd s x = Some (sp, dx) -> rd s y = Some (sp, dy) -> (threshold_small <= fst sp)%nat ->
+  call junk (prox_l2_bigstep sp) (VElem x) (Some (VElem y)) s
+  = Ok (VElem y) (upd s y (sp, cl (repeat 0%R (fst sp)))).
+Proof.
+  intros W Ex Ey L. unfold call, prox_l2_bigstep. cbn [sem map]. unfold cls_sem.
+  cbn [c_kind cls_ProximalL2_bigstep i_ran i_dom slots o_call].
+  unfold public_call.
+  rewrite (bind_Ok _ _ s true s) by (rewrite (in_space_elem _ _ _ _ Ex); reflexivity).
+  cbn [ret]. rewrite (bind_Ok _ _ s (Some (VElem x)) s) by reflexivity.
+  rewrite (bind_Ok _ _ s true s) by (cbn; rewrite Ey, sp_eqb_refl; reflexivity).
+  cbn [negb].
+  pose proof (W _ _ _ Ey) as Ly.
+  assert (Hb : exec_body junk
+            {| i_dom := sp; i_ran := RSp sp; i_pars := []; i_vecs := []; i_owns := []; i_kids := [] |}
+            (c_ip cls_ProximalL2_bigstep) (VElem x) (Some (VElem y)) s
+          = Ok VNone (upd s y (sp, cl (repeat 0%R (fst sp))))).
+  { unfold cls_ProximalL2_bigstep.
+    cbv beta iota zeta delta [exec_body exec_sts exec_st b_st b_ret c_ip lookup ref_id elem_id lift_opt
+                              e_x e_out e_tmp e_sc e_last bind ret fail].
+    rewrite (set_zero_large_clean s y sp dy Ey) by (rewrite Ly; exact L). rewrite Ly. reflexivity. }
+  rewrite (bind_Ok _ _ _ _ _ Hb). reflexivity.
+Qed.
+End ProxL2.
